@@ -82,7 +82,7 @@ DecCel(b, bpp) ==
             ELSE LET w == U16At(b, 16)
                      h == U16At(b, 18)
                      avail == Len(b) - 20
-                 IN IF avail < w * h * bpp THEN Broken("cel.raw_short")
+                 IN IF avail < SatMul(SatMul(w, h), bpp) THEN Broken("cel.raw_short")
                     ELSE Ok([base EXCEPT !.w = w, !.h = h, !.px = Pixels(Sub(b, 20, w * h * bpp), bpp)])
        [] ct = 1 -> IF ~Has(b, 16, 2) THEN Broken("cel.link") ELSE Ok([base EXCEPT !.link = U16At(b, 16)])
        [] ct = 2 ->
